@@ -67,9 +67,11 @@ type Enc struct {
 	failed []string // reasons the function left the subset
 	nameDefs map[string][]*ssa.DebugRef
 	isInit bool
+	initPhase bool // package initialiser or one of the init() functions it calls
 	exits  []exitInfo
 	resultTypes []types.Type
 	pendingCopyOut []copyOut
+	curCall *ssa.Call
 }
 
 type exitInfo struct {
@@ -207,7 +209,8 @@ func (e *Enc) run() {
 	w, fn := e.w, e.fn
 	e.declare("W_0", "Int")
 	e.declare("A_0", "Int")
-	e.entry = &State{mem: map[string]string{}, W: "W_0", A: "A_0"}
+	e.declare("H_0", "Int")
+	e.entry = &State{mem: map[string]string{}, W: "W_0", A: "A_0", H: "H_0"}
 	e.cur = e.entry.clone()
 	e.curReach = "true"
 	e.body = append(e.body, fmt.Sprintf("(assert (>= W_0 %d))", 4096)) // room for package-level objects
@@ -225,14 +228,32 @@ func (e *Enc) run() {
 			e.resultTypes = append(e.resultTypes, sig.Results().At(i).Type())
 		}
 	}
+	// axioms (justified by ground obligations / audits; listed in the trusted base)
+	for _, ax := range w.cs.Axioms {
+		if (ax.Pkg == "encoding") != (e.pkg.Name() == "encoding") {
+			continue
+		}
+		e.assume(e.env(e.entry, e.entry, nil).bool(ax.Expr))
+		w.axiomsUsed[ax.Label+": "+ax.Text] = true
+	}
 	// global invariants are assumed at entry of every function except the initialisers
-	if !e.isInit {
+	e.initPhase = e.isInit || strings.HasPrefix(fn.Name(), "init#")
+	if !e.initPhase {
 		genv := e.env(e.entry, e.entry, nil)
 		for _, g := range w.cs.Globals {
 			if !e.globalApplies(g) {
 				continue
 			}
 			e.assume(genv.bool(g.Expr))
+		}
+	}
+	if e.isInit {
+		// the initialiser runs exactly once: its guard is still false
+		for _, m := range fn.Pkg.Members {
+			if g, ok := m.(*ssa.Global); ok && g.Name() == "init$guard" {
+				v := w.loadAt(e.entry, e.useMem, &Addr{base: w.globalRefSSA(g), elem: types.Typ[types.Bool]})
+				e.assume(not(v.S))
+			}
 		}
 	}
 	// preconditions
@@ -395,6 +416,9 @@ func (e *Enc) block(b *ssa.BasicBlock) {
 			if k == "$A" {
 				return s.A
 			}
+			if k == "$H" {
+				return s.H
+			}
 			if t, ok := s.mem[k]; ok {
 				return t
 			}
@@ -431,6 +455,7 @@ func (e *Enc) block(b *ssa.BasicBlock) {
 			}
 			st.W = merge("$W", "Int")
 			st.A = merge("$A", "Int")
+			st.H = merge("$H", "Int")
 			e.cur = st
 		}
 	}
@@ -472,6 +497,7 @@ func (e *Enc) block(b *ssa.BasicBlock) {
 			continue
 		}
 		e.instr(in)
+		e.compact()
 	}
 	e.out[b] = e.cur
 }
@@ -511,9 +537,12 @@ func (e *Enc) loopHead(li *loopInfo, phiIn map[*ssa.Phi]string) {
 	e.declare(wn, "Int")
 	an := e.fresh("A_h")
 	e.declare(an, "Int")
-	preW, preA := e.cur.W, e.cur.A
-	st.W, st.A = wn, an
+	hn := e.fresh("H_h")
+	e.declare(hn, "Int")
+	preW, preA, preH := e.cur.W, e.cur.A, e.cur.H
+	st.W, st.A, st.H = wn, an, hn
 	e.cur = st
+	e.assume(fmt.Sprintf("(>= %s %s)", hn, preH))
 	e.assume(fmt.Sprintf("(>= %s %s)", wn, preW))
 	e.assume(fmt.Sprintf("(>= %s %s)", an, preA))
 	for _, in := range b.Instrs {
@@ -747,11 +776,7 @@ func (e *Enc) term(v ssa.Value) Term {
 	case *ssa.Const:
 		return e.constTerm(v)
 	case *ssa.Global:
-		obj, _ := v.Object().(*types.Var)
-		if obj == nil {
-			panic(unsupported("global without object: " + v.Name()))
-		}
-		return Term{e.w.globalRef(obj), "Int", v.Type()}
+		return Term{e.w.globalRefSSA(v), "Int", v.Type()}
 	case *ssa.Function:
 		panic(unsupported("function value " + v.Name()))
 	}
@@ -931,6 +956,10 @@ func (e *Enc) instr(in ssa.Instruction) {
 		a := e.addr(in.Addr)
 		v := e.term(in.Val)
 		if g, ok := in.Addr.(*ssa.Global); ok {
+			if e.isInit && g.Name() == "init$guard" {
+				w.storeAt(e.cur, e.useMem, a, v.S)
+				return
+			}
 			e.globalStore(g, v, in.Pos())
 		} else if _, isFA := in.Addr.(*ssa.FieldAddr); !isFA {
 			if _, isIA := in.Addr.(*ssa.IndexAddr); !isIA {
@@ -939,6 +968,7 @@ func (e *Enc) instr(in ssa.Instruction) {
 		}
 		e.frameCheck(a, "store to "+describeAddr(in.Addr), in.Pos())
 		w.storeAt(e.cur, e.useMem, a, v.S)
+		e.bumpH(a)
 	case *ssa.Phi:
 		return
 	case *ssa.If, *ssa.Jump:
@@ -1022,6 +1052,7 @@ func (e *Enc) instr(in ssa.Instruction) {
 		dm, vm := stateMem(e.cur, e.useMem, md), stateMem(e.cur, e.useMem, mv)
 		e.cur.mem[md.Name] = sto(dm, m.S, sto(sel(dm, m.S), k.S, "true"))
 		e.cur.mem[mv.Name] = sto(vm, m.S, sto(sel(vm, m.S), k.S, v.S))
+		e.bumpH(&Addr{base: m.S, isMap: true, mapT: mt, elem: in.Map.Type()})
 		e.chargeAlloc(fmt.Sprint(sizeOf(mt.Key()) + sizeOf(mt.Elem()) + 16))
 	case *ssa.Range:
 		e.rangeInstr(in)
@@ -1111,9 +1142,9 @@ func (e *Enc) unop(in *ssa.UnOp) {
 	switch in.Op {
 	case token.MUL: // load
 		if g, ok := in.X.(*ssa.Global); ok {
-			obj := g.Object().(*types.Var)
-			v := w.loadAt(e.cur, e.useMem, &Addr{base: w.globalRef(obj), elem: obj.Type()})
-			e.def(in, v.S)
+			v := w.loadAt(e.cur, e.useMem, &Addr{base: w.globalRefSSA(g), elem: g.Type().Underlying().(*types.Pointer).Elem()})
+			gt := e.def(in, v.S)
+			e.assumeAll(w.reg.wf(gt.S, in.Type(), e.cur.W))
 			return
 		}
 		a := e.addr(in.X)
@@ -1405,12 +1436,15 @@ func (e *Enc) exit() {
 	}
 	wv := e.exits[len(e.exits)-1].st.W
 	av := e.exits[len(e.exits)-1].st.A
+	hv := e.exits[len(e.exits)-1].st.H
 	for j := len(e.exits) - 2; j >= 0; j-- {
 		wv = fmt.Sprintf("(ite %s %s %s)", e.exits[j].reach, e.exits[j].st.W, wv)
 		av = fmt.Sprintf("(ite %s %s %s)", e.exits[j].reach, e.exits[j].st.A, av)
+		hv = fmt.Sprintf("(ite %s %s %s)", e.exits[j].reach, e.exits[j].st.H, hv)
 	}
 	st.W = e.define("W_exit", "Int", wv)
 	st.A = e.define("A_exit", "Int", av)
+	st.H = e.define("H_exit", "Int", hv)
 	e.cur = st
 	e.curReach = rx
 	vo := e.oblige("vacuity", "exit-reachable", "false", "some return must be reachable under the contract's assumptions", nil, e.fn.Pos())
@@ -1487,6 +1521,16 @@ func (e *Enc) trAddr(env *Env, x ast.Expr) []*Addr {
 	case *ast.CallExpr:
 		if id, ok := x.Fun.(*ast.Ident); ok {
 			switch id.Name {
+			case "globalsWithPrefix": // every package-level variable whose name starts with the given prefix
+				lit, _ := x.Args[0].(*ast.BasicLit)
+				pre := strings.Trim(lit.Value, "\"`")
+				var out []*Addr
+				for _, n := range env.pkg.Scope().Names() {
+					if obj, ok := env.pkg.Scope().Lookup(n).(*types.Var); ok && strings.HasPrefix(n, pre) {
+						out = append(out, w.leafAddrs(&Addr{base: w.globalRef(obj), elem: obj.Type()})...)
+					}
+				}
+				return out
 			case "elems":
 				s := env.tr(x.Args[0], nil)
 				st := s.T.Underlying().(*types.Slice)
@@ -1529,6 +1573,84 @@ func sizeOf(t types.Type) int64 {
 	return 8
 }
 
+// bumpH advances the ghost heap version after a write to a (the caller passes the
+// written address); writes to the types of `config heapver_ignore` do not count, and
+// neither do writes to memory allocated by this very call before it was published
+// (that is decided by the solver: the bump is conditional on base <= W_0 for leaf cells).
+func (e *Enc) bumpH(a *Addr) {
+	if e.w.verIgnored(a) {
+		return
+	}
+	e.cur.H = e.define(e.fresh("H"), "Int", "(+ "+e.cur.H+" 1)")
+}
+
+func (w *World) verIgnored(a *Addr) bool {
+	for _, n := range w.cs.Config["heapver_ignore"] {
+		t := w.namedType(n)
+		if t == nil {
+			continue
+		}
+		switch u := t.Underlying().(type) {
+		case *types.Struct:
+			if a.st != nil && types.Identical(a.st, u) {
+				return true
+			}
+			if a.st == nil && !a.isElem && !a.isMap && types.Identical(a.elem.Underlying(), u) {
+				return true
+			}
+		case *types.Map:
+			if a.isMap && types.Identical(a.mapT, u) {
+				return true
+			}
+		}
+	}
+	return false
+}
+
+func (w *World) namedType(name string) types.Type {
+	pkgName, tn := "", name
+	if i := strings.Index(name, "."); i >= 0 {
+		pkgName, tn = name[:i], name[i+1:]
+	}
+	var scope *types.Scope
+	if pkgName == "" {
+		scope = w.rootPkg.Scope()
+	} else {
+		for _, sp := range w.spkgs {
+			for _, ip := range sp.Pkg.Imports() {
+				if ip.Name() == pkgName {
+					scope = ip.Scope()
+				}
+			}
+			if sp.Pkg.Name() == pkgName {
+				scope = sp.Pkg.Scope()
+			}
+		}
+	}
+	if scope == nil {
+		return nil
+	}
+	if o, ok := scope.Lookup(tn).(*types.TypeName); ok {
+		return o.Type()
+	}
+	return nil
+}
+
+// compact names every memory term that has grown, so that later terms refer to it by
+// name instead of copying it (keeps the VC linear in the size of the function).
+func (e *Enc) compact() {
+	for _, k := range sortedKeys(e.cur.mem) {
+		t := e.cur.mem[k]
+		if len(t) > 160 {
+			m, ok := e.mems[k]
+			if !ok {
+				continue
+			}
+			e.cur.mem[k] = e.define(e.fresh(k+"_s"), m.Sort, t)
+		}
+	}
+}
+
 func (e *Enc) chargeAlloc(bytes string) {
 	e.cur.A = e.define(e.fresh("A"), "Int", "(+ "+e.cur.A+" "+bytes+")")
 }
@@ -1538,15 +1660,5 @@ func (e *Enc) chargeAllocBV(n string, elemSize int64) {
 }
 
 func (e *Enc) globalStore(g *ssa.Global, v Term, pos token.Pos) {
-	if !e.isInit {
-		return // frameCheck reports it (globals are never > W_0)
-	}
-	// an error stored into a sentinel variable "is" that sentinel from now on
-	if v.Sort == "Iface" {
-		name := e.pkg.Name() + "." + g.Name()
-		if types.Identical(g.Type().Underlying().(*types.Pointer).Elem(), types.Universe.Lookup("error").Type()) {
-			bit := e.w.reg.sentinelBit(name)
-			e.assume(fmt.Sprintf("(= ((_ extract %d %d) (errclass (i-ref %s))) #b1)", bit, bit, v.S))
-		}
-	}
+	// sentinel classes are fixed where the error is created (ownSentinelClass)
 }
